@@ -103,6 +103,54 @@ def classify_paths(paths):
     return ok, err, panic, other
 
 
+def int_method(ex, callee, args, ctx):
+    """Whitelisted integer methods of core::num (exact bit-vector semantics); None if not one of them."""
+    m = re.match(r"^(?:core|std)::num::<impl (\w+)>::(\w+)$", callee)
+    if not m or m.group(1) not in mir.INT_TYPES:
+        return None
+    w, sg = mir.INT_TYPES[m.group(1)]
+    op = m.group(2)
+    t = [a.term for a in args]
+    if op in ("wrapping_add", "wrapping_sub", "wrapping_mul"):
+        f = {"wrapping_add": "bvadd", "wrapping_sub": "bvsub", "wrapping_mul": "bvmul"}[op]
+        return [([], mk_int("(%s %s %s)" % (f, t[0], t[1]), w, sg), ctx)]
+    if op == "wrapping_neg":
+        return [([], mk_int("(bvneg %s)" % t[0], w, sg), ctx)]
+    if op in ("saturating_add", "saturating_sub") and not sg:
+        f = "bvadd" if op == "saturating_add" else "bvsub"
+        r = "(%s %s %s)" % (f, t[0], t[1])
+        if op == "saturating_add":
+            return [([], mk_int("(ite (bvult %s %s) %s %s)" % (r, t[0], bvconst((1 << w) - 1, w), r), w, sg), ctx)]
+        return [([], mk_int("(ite (bvult %s %s) %s %s)" % (t[0], t[1], bvconst(0, w), r), w, sg), ctx)]
+    if op == "abs_diff" and not sg:
+        return [([], mk_int("(ite (bvult %s %s) (bvsub %s %s) (bvsub %s %s))" % (t[0], t[1], t[1], t[0], t[0], t[1]), w, sg), ctx)]
+    if op in ("min", "max"):
+        lt = "bvslt" if sg else "bvult"
+        a, b = (t[0], t[1]) if op == "min" else (t[1], t[0])
+        return [([], mk_int("(ite (%s %s %s) %s %s)" % (lt, t[0], t[1], a, b), w, sg), ctx)]
+    if op == "div_euclid" and sg:
+        qt = "(bvsdiv %s %s)" % (t[0], t[1])
+        rt = "(bvsrem %s %s)" % (t[0], t[1])
+        fl = "(ite (bvslt %s %s) (bvsub %s %s) %s)" % (rt, bvconst(0, w), qt, bvconst(1, w), qt)
+        return [(["(bvsgt %s %s)" % (t[1], bvconst(0, w))], mk_int(fl, w, sg), ctx)]
+    return None
+
+
+def ord_method(ex, callee, args, ctx):
+    """<iN as Ord>::clamp / min / max."""
+    m = re.match(r"^<(\w+) as (?:std::cmp::)?Ord>::(clamp|min|max)$", callee)
+    if not m or m.group(1) not in mir.INT_TYPES:
+        return None
+    w, sg = mir.INT_TYPES[m.group(1)]
+    lt = "bvslt" if sg else "bvult"
+    t = [a.term for a in args]
+    if m.group(2) == "clamp":
+        r = "(ite (%s %s %s) %s (ite (%s %s %s) %s %s))" % (lt, t[0], t[1], t[1], lt, t[2], t[0], t[2], t[0])
+        return [([], mk_int(r, w, sg), ctx)]
+    a, b = (t[0], t[1]) if m.group(2) == "min" else (t[1], t[0])
+    return [([], mk_int("(ite (%s %s %s) %s %s)" % (lt, t[0], t[1], a, b), w, sg), ctx)]
+
+
 def io_error_other(ex, callee, args, dst_ty, cond, ctx):
     desc = args[0].desc if args and args[0].kind == "opaque" else "?"
     return [([], Val("opaque", desc="io::Error::other(%s)" % desc), ctx)]
@@ -148,6 +196,9 @@ class C14Kernel:
         def handler(ex, callee, args, dst_ty, cond, ctx):
             if "io::Error::other" in callee:
                 return io_error_other(ex, callee, args, dst_ty, cond, ctx)
+            r = int_method(ex, callee, args, ctx) or ord_method(ex, callee, args, ctx)
+            if r is not None:
+                return r
             raise Unsupported("call in kernel: " + callee)
 
         ex = Exec(mod, handler)
@@ -266,6 +317,10 @@ class C14Compose:
                 return [([], Val("opaque", desc="utc(local)"), ctx)]
             if callee.endswith("::unix_timestamp_nanos"):
                 return [([], mk_int("N", 128, True), ctx)]
+            if not callee.endswith("::div_euclid"):
+                r = int_method(ex, callee, args, ctx) or ord_method(ex, callee, args, ctx)
+                if r is not None:
+                    return r
             if callee.endswith("::div_euclid"):
                 a, b = args
                 seen["div"] = "div_euclid"
@@ -345,13 +400,32 @@ class C14Compose:
 # ---------------------------------------------------------------------------
 # native replay through the public API
 
-DRIVER = os.path.join(VERIF, "replay_drivers", "vouched")
+def _driver_dir():
+    import kanirun
+    base = os.path.join(VERIF, "replay_drivers", "vouched")
+    if not kanirun.ALT:
+        return base
+    import shutil
+    d = os.path.join(WORK, "drivers" + kanirun.ALT, "vouched")
+    if os.path.exists(d):
+        shutil.rmtree(d)
+    shutil.copytree(base, d, ignore=shutil.ignore_patterns("target"))
+    t = open(os.path.join(d, "Cargo.toml")).read().replace('"/repo/', '"%s/' % mir.REPO)
+    open(os.path.join(d, "Cargo.toml"), "w").write(t)
+    return d
+
+
+DRIVER = None
 
 
 def run_driver(local_ns, base):
     env = dict(os.environ)
     env["CARGO_NET_OFFLINE"] = "true"
-    env["CARGO_TARGET_DIR"] = os.path.join(WORK, "target", "driver-vouched")
+    import kanirun
+    global DRIVER
+    if DRIVER is None:
+        DRIVER = _driver_dir()
+    env["CARGO_TARGET_DIR"] = os.path.join(WORK, "target", "driver-vouched" + kanirun.ALT)
     env.pop("RUSTFLAGS", None)
     lock = os.path.join(mir.REPO, "Cargo.lock")
     if os.path.exists(lock):
@@ -371,7 +445,8 @@ def spec_ns(local_ns, base):
 
 
 def save_artifact(pid, kind, local_ns, base, extra):
-    d = os.path.join(VERIF, "replays", pid)
+    import kanirun
+    d = os.path.join(VERIF, "replays" + kanirun.ALT, pid)
     os.makedirs(d, exist_ok=True)
     path = os.path.join(d, "%s-local_ns=%d-base=%d.json" % (kind, local_ns, base))
     json.dump({"kind": kind, "local_ns": local_ns, "base_ms": base, "valid_voucher": True, **extra}, open(path, "w"), indent=1)
